@@ -23,4 +23,7 @@ def conditions(tier, seed):
         out.append(Cond('wellformed_real_s%d' % sh, 'c05_rt.py', dict(which='c06', corpus='real', shard=sh, nshards=4), func='check_wellformed',
                         timeout=t, bound='the 26 real bodies of the fixture model (shard %d/4)' % sh,
                         case_split=['ci'], realised=['program text'], twin=(sh == 0)))
+    out.append(Cond('lexer_line_bookkeeping', 'c06_lines.py', {}, kind='script', timeout=900,
+                    bound='every t_* rule of the OAL lexer: can its language contain a newline (z3, strings <= 12) and does the rule count it',
+                    symbolic=['token text (z3 sequence theory)']))
     return out
